@@ -7,6 +7,8 @@ CONSTANTS
   IdxKeyMode = "abs"
   ImgKeepMode = "none"
   LookupsCap = 0
+  FailKeep = FALSE
+  RegionMemo = FALSE
 SPECIFICATION TSpec
 POSTCONDITION AllConsumed
 CHECK_DEADLOCK FALSE
